@@ -259,5 +259,9 @@ func runC16(r *run) {
 		}
 	}
 	childTimeSettings(r.violate)
+	// machines in zones with daylight saving and with offsets that are not whole hours
+	for _, tz := range []string{"Europe/Berlin", "America/New_York", "Asia/Kolkata", "Australia/Lord_Howe", "America/St_Johns"} {
+		envProbe(r, false, "tz", "TZ="+tz)
+	}
 	slog.VerifResetGlobals()
 }
